@@ -142,7 +142,9 @@ def main():
             if model_ok:
                 model_out = vlib.run_lines(vlib.MODEL_BIN, [c.model for c in cases])
                 idx = [i for i, c in enumerate(cases) if c.spec]
-                so = vlib.run_lines(vlib.MODEL_BIN, [cases[i].spec for i in idx])
+                # a spec line may depend on what the implementation produced (oracle on its output)
+                so = vlib.run_lines(vlib.MODEL_BIN, [cases[i].spec(impl_out[i]) if callable(cases[i].spec)
+                                                     else cases[i].spec for i in idx])
                 for i, s in zip(idx, so):
                     spec_out[i] = s
             known = vlib.load_known()
@@ -151,6 +153,20 @@ def main():
                 if c.nontrivial:
                     nontrivial_set.add(c.impl)
                 verdicts = mod.judge(c, impl_out[i], model_out[i], spec_out[i], ctx)
+                if verdicts and getattr(mod, "RETRY_PREFIX", None) and c.kind.startswith(mod.RETRY_PREFIX):
+                    # real sockets / real time: a verdict must persist in 2 of 3 solitary re-runs
+                    again = 0
+                    for _ in range(2):
+                        try:
+                            o = vlib.norm_impl(vlib.run_lines(vlib.HARNESS_BIN, [c.impl], shards=1, timeout=300)[0])
+                        except Exception:
+                            continue
+                        if mod.judge(c, o, model_out[i], spec_out[i], ctx):
+                            again += 1
+                            impl_out[i] = o
+                    if again == 0:
+                        ctx.setdefault("transient", []).append(c.kind)
+                        verdicts = []
                 for kind, msg in verdicts:
                     outs = {"impl": impl_out[i], "model": model_out[i], "spec": spec_out[i]}
                     kf = mod.known_finding(c, kind, msg, known) if hasattr(mod, "known_finding") else None
@@ -201,6 +217,8 @@ def main():
         "known_findings_seen": sorted(known_hits.keys()),
         "broken": [b.what for b in broken],
         "exhaustive": False,
+        "skipped_environment": sorted(set(ctx.get("skipped_env", []))),
+        "transient_not_reproduced": sorted(set(ctx.get("transient", []))),
     }
     if coqchk_note is not None:
         cov["coqchk"] = coqchk_note[-400:]
